@@ -205,12 +205,23 @@ def qvalue(qid, val):
     return float(val)
 
 
+def _guarded(tree, var, qty, dv):
+    """bridge.eval_tree, but factorial of more than 170 is Undefined (math.factorial would run for minutes and
+    the result is not a float anyway)"""
+    for s in reversed(list(subtrees(tree))):
+        if s[0] == 7 and s[1] == 43:
+            v = bridge.eval_tree(s[2], var, qty, dv)
+            if not 0 <= v <= 170:
+                raise bridge.Undefined()
+    return bridge.eval_tree(tree, var, qty, dv)
+
+
 def eval_n(tree, vals, dv):
-    return bridge.eval_tree(tree, lambda v: vals[v], lambda i, q, u: qvalue(i, q), dv)
+    return _guarded(tree, lambda v: vals[v], lambda i, q, u: qvalue(i, q), dv)
 
 
 def eval_si(tree, vals, dv):
-    return bridge.eval_tree(
+    return _guarded(
         tree, lambda v: vals[v] * USCALE[var_unit(v)], lambda i, q, u: qvalue(i, q) * USCALE[u],
         lambda y, t: dv(y, t) * USCALE[var_unit(y)] / USCALE[var_unit(t)])
 
@@ -232,7 +243,7 @@ def stable_point(tree, vals, dv):
             return False          # huge intermediate values: Mod / tan / differences lose all precision
     for eps in (1e-9, -1e-9):
         def pert(t, vs, d, eps=eps):
-            return bridge.eval_tree(t, lambda v: vs[v] * (1 + eps), lambda i, q, u: qvalue(i, q) * (1 + eps), d)
+            return _guarded(t, lambda v: vs[v] * (1 + eps), lambda i, q, u: qvalue(i, q) * (1 + eps), d)
         b = try_eval(pert, tree, vals, dv)
         if (a is None) != (b is None):
             return False
@@ -437,7 +448,7 @@ def has_fn(t, ids):
 TRANS = [0, 1, 10, 11, 12, 16, 17, 18, 24, 28, 23, 43]      # exp log sin cos tan sinh cosh tanh atan asinh acos factorial
 LIT_EXPS = [[0, 0, F(2)], [0, 0, F(3)], [0, 0, F(-1)], [0, 0, F(-2)], [0, 1, F(1, 2)], [0, 2, F(1, 2)],
             [0, 2, F(2)], [0, 1, F(3, 2)], [0, 1, F(-1, 2)], [0, 0, F(1)]]
-NUMS = [[0, 0, F(2)], [0, 0, F(3)], [0, 2, F(5, 2)], [0, 1, F(1, 2)], [0, 0, F(-1)], [0, 2, F(3, 4)], [0, 0, F(10)]]
+NUMS = [[0, 0, F(2)], [0, 0, F(3)], [0, 2, F(5, 2)], [0, 1, F(1, 2)], [0, 2, F(3, 4)], [0, 0, F(10)]]
 QVALS = [F(1), F(2), F(3), F(1, 2), F(5, 2), F(100), F(50), F(3, 2), F(7)]
 
 
@@ -612,7 +623,8 @@ def mutations(rng, tree, per_leaf=2):
         same = [w for w in range(NU) if w != u and UDIMS[w] == UDIMS[u] and not close(USCALE[w], USCALE[u], 1e-12)]
         other = [w for w in range(NU) if UDIMS[w] != UDIMS[u]]
         picks = []
-        if same:
+        in_exp = any(get_at(tree, path[:k])[0] == 6 and path[k] == 2 for k in range(len(path)))
+        if same and not (in_exp and leaf[0] == 2 and leaf[2] > 8):      # no x**50: pint overflows
             picks.append(('scale', rng.choice(same)))
         if other and per_leaf > 1:
             picks.append(('dimension', rng.choice(other)))
